@@ -90,7 +90,7 @@ pub fn spawn_sni_server(
 // C12
 // ---------------------------------------------------------------------------------------------
 
-const RULE12: &str = "TLS worlds on duplex (paused clock) and TCP: client = public stack with TlsTransport::with_tls(fixture CA); cases = scheme {http, https, ws, wss, ftp, HTTPS, Wss, WSS} x host {DNS lower/upper/underscore/punycode, IPv4 literal, [::1], [::ffff:127.0.0.1]} x port {absent, default, other} x server certificate {matching, wrong name, untrusted CA, expired} x ALPN offers on both sides x handshake faults {peer closes after ClientHello, peer answers plaintext, truncated ServerHello, stall}; oracle = client-side byte tap of the raw transport (TLS record header first, request marker never in the clear), SNI seen by the server, client result, panic hook; non-trivial = every case; distinct by case";
+const RULE12: &str = "TLS worlds on duplex (paused clock) and TCP: client = public stack with TlsTransport::with_tls(fixture CA); cases = scheme {http, https, ws, wss, ftp, HTTPS, Wss, WSS; parsed from text and assembled from parts incl. Https, hTTpS} x caller-supplied Host header naming another host {absent, other.test} x host {DNS lower/upper/underscore/punycode, IPv4 literal, [::1], [::ffff:127.0.0.1]} x port {absent, default, other} x server certificate {matching, wrong name, untrusted CA, expired} x ALPN offers on both sides x handshake faults {peer closes after ClientHello, peer answers plaintext, truncated ServerHello, stall}; oracle = client-side byte tap of the raw transport (TLS record header first, request marker never in the clear), SNI seen by the server, client result, panic hook; non-trivial = every case; distinct by case";
 
 #[derive(Clone, Debug, Hash)]
 pub struct TlsCase {
@@ -103,11 +103,15 @@ pub struct TlsCase {
     pub fault: &'static str,
     pub h2_request: bool,
     pub tcp: bool,
+    /// the URI is assembled with `Uri::builder()` (a non-lowercase scheme then stays `Other("HTTPS")`)
+    pub from_parts: bool,
+    /// a Host header supplied by the caller, naming something else than the URI host
+    pub preset_host: Option<&'static str>,
 }
 
 impl TlsCase {
     fn to_json(&self) -> Value {
-        json!({"engine": "tlsworld", "scheme": self.scheme, "host": self.host, "port": self.port, "cert": self.cert, "client_alpn": self.client_alpn, "server_alpn": self.server_alpn, "fault": self.fault, "h2_request": self.h2_request, "tcp": self.tcp})
+        json!({"engine": "tlsworld", "scheme": self.scheme, "host": self.host, "port": self.port, "cert": self.cert, "client_alpn": self.client_alpn, "server_alpn": self.server_alpn, "fault": self.fault, "h2_request": self.h2_request, "tcp": self.tcp, "from_parts": self.from_parts, "preset_host": self.preset_host})
     }
     fn authority(&self) -> String {
         match self.port {
@@ -205,18 +209,24 @@ pub async fn run_tls_case(c: &TlsCase) -> TlsOutcome {
         });
     }
     let client = build_client(routes.clone(), None, Some(client_tls(c.client_alpn)), None);
-    let uri = format!("{}://{}/r/4242/{MARKER}?m={MARKER}", c.scheme, c.authority());
-    let outcome = match uri.parse::<http::Uri>() {
+    let uri = if c.from_parts {
+        http::Uri::builder().scheme(c.scheme).authority(c.authority()).path_and_query(format!("/r/4242/{MARKER}?m={MARKER}")).build().map_err(|e| e.to_string())
+    } else {
+        format!("{}://{}/r/4242/{MARKER}?m={MARKER}", c.scheme, c.authority()).parse::<http::Uri>().map_err(|e| e.to_string())
+    };
+    let outcome = match uri {
         Err(e) => Err(format!("uri does not parse: {e}")),
         Ok(uri) => {
-            let req = Request::builder()
+            let mut b = Request::builder()
                 .method("POST")
                 .uri(uri)
                 .version(if c.h2_request { http::Version::HTTP_2 } else { http::Version::HTTP_11 })
                 .header("x-id", 4242u64)
-                .header("x-marker", MARKER)
-                .body(ChunkBody::new(format!("{MARKER}{MARKER}").into_bytes(), 0, 0))
-                .unwrap();
+                .header("x-marker", MARKER);
+            if let Some(hh) = c.preset_host {
+                b = b.header("host", hh);
+            }
+            let req = b.body(ChunkBody::new(format!("{MARKER}{MARKER}").into_bytes(), 0, 0)).unwrap();
             let fut = async move {
                 let resp = client.oneshot(req).await.map_err(|e| format!("{e:?}"))?;
                 let (parts, body) = resp.into_parts();
@@ -262,6 +272,12 @@ pub fn judge_tls(c: &TlsCase, o: &TlsOutcome, rep: &mut Report, args: &Args) {
         p.count(&format!("cases_cert_{}", c.cert), 1);
         p.count(&format!("cases_fault_{}", c.fault), 1);
         p.count(&format!("cases_host_{host_class}"), 1);
+        if c.from_parts {
+            p.count("cases_uri_built_from_parts", 1);
+        }
+        if c.preset_host.is_some() {
+            p.count("cases_caller_host_header_differs_from_uri_host", 1);
+        }
         if let Some(pn) = &o.panicked {
             p.violation(format!("panic:{host_class}:{scheme_class}"), format!("request to {}://{} panicked: {pn} | case {replay}", c.scheme, c.authority()), replay.clone());
         } else if o.timed_out && c.fault != "stall" {
@@ -347,6 +363,7 @@ pub fn judge_tls(c: &TlsCase, o: &TlsOutcome, rep: &mut Report, args: &Args) {
                     Some(pn) if !(known && pn == default_port) => format!("{}:{}", c.host, pn),
                     _ => c.host.to_string(),
                 };
+                let want = c.preset_host.map(str::to_string).unwrap_or(want);
                 let ok = h.host_header.as_deref() == Some(&want) || (!known && h.host_header.as_deref() == Some(c.host));
                 if !ok {
                     p.violation(format!("wire:h1-host-header:{scheme_class}"), format!("Host on the wire {:?}, want {want:?} | case {replay}", h.host_header), replay.clone());
@@ -392,7 +409,7 @@ pub fn gen_tls_cases(thorough: bool) -> Vec<TlsCase> {
                         if !thorough && (port == Some(80) || port == Some(8443)) && (ca, sa) != (BOTH, BOTH) {
                             continue;
                         }
-                        v.push(TlsCase { scheme, host, port, cert: "good", client_alpn: ca, server_alpn: sa, fault: "none", h2_request, tcp: false });
+                        v.push(TlsCase { scheme, host, port, cert: "good", client_alpn: ca, server_alpn: sa, fault: "none", h2_request, tcp: false, from_parts: false, preset_host: None });
                     }
                 }
             }
@@ -406,11 +423,44 @@ pub fn gen_tls_cases(thorough: bool) -> Vec<TlsCase> {
                     continue;
                 }
                 for h2_request in [false, true] {
-                    v.push(TlsCase { scheme, host, port: Some(443), cert, client_alpn: BOTH, server_alpn: BOTH, fault: "none", h2_request, tcp: false });
+                    v.push(TlsCase { scheme, host, port: Some(443), cert, client_alpn: BOTH, server_alpn: BOTH, fault: "none", h2_request, tcp: false, from_parts: false, preset_host: None });
                 }
             }
             for fault in ["close-after-hello", "plaintext-answer", "truncated-server-hello", "stall"] {
-                v.push(TlsCase { scheme, host, port: None, cert: "good", client_alpn: BOTH, server_alpn: BOTH, fault, h2_request: false, tcp: false });
+                v.push(TlsCase { scheme, host, port: None, cert: "good", client_alpn: BOTH, server_alpn: BOTH, fault, h2_request: false, tcp: false, from_parts: false, preset_host: None });
+            }
+        }
+    }
+    // URIs assembled from parts: a non-lowercase scheme is then not normalised by the parser
+    for scheme in ["https", "HTTPS", "Https", "hTTpS", "wss", "WSS", "Wss", "http", "HTTP", "Ws", "ftp"] {
+        for host in ["example.com", "127.0.0.1", "[::1]", "EXAMPLE.test"] {
+            for port in [None, Some(443u16), Some(8443)] {
+                for h2_request in [false, true] {
+                    if !thorough && h2_request && port == Some(8443) {
+                        continue;
+                    }
+                    v.push(TlsCase { scheme, host, port, cert: "good", client_alpn: BOTH, server_alpn: BOTH, fault: "none", h2_request, tcp: false, from_parts: true, preset_host: None });
+                }
+            }
+            if secure(scheme) && host != "[::1]" {
+                v.push(TlsCase { scheme, host, port: None, cert: "wrongname", client_alpn: BOTH, server_alpn: BOTH, fault: "none", h2_request: false, tcp: false, from_parts: true, preset_host: None });
+                v.push(TlsCase { scheme, host, port: None, cert: "good", client_alpn: BOTH, server_alpn: BOTH, fault: "plaintext-answer", h2_request: false, tcp: false, from_parts: true, preset_host: None });
+            }
+        }
+    }
+    // a caller-supplied Host header naming something else than the URI host: the TLS name stays the URI host.
+    // "wrongname" is a certificate for other.test only, "good" does not cover other.test.
+    for scheme in ["https", "wss", "HTTPS"] {
+        for host in ["example.com", "a.test", "127.0.0.1", "[::1]"] {
+            for preset in ["other.test", "other.test:443", "OTHER.test"] {
+                for cert in ["good", "wrongname"] {
+                    for h2_request in [false, true] {
+                        if !thorough && h2_request && preset != "other.test" {
+                            continue;
+                        }
+                        v.push(TlsCase { scheme, host, port: None, cert, client_alpn: BOTH, server_alpn: BOTH, fault: "none", h2_request, tcp: false, from_parts: false, preset_host: Some(preset) });
+                    }
+                }
             }
         }
     }
@@ -418,7 +468,7 @@ pub fn gen_tls_cases(thorough: bool) -> Vec<TlsCase> {
     for scheme in ["https", "http", "wss"] {
         for host in ["a.test", "127.0.0.1", "example.com"] {
             for cert in ["good", "wrongname"] {
-                v.push(TlsCase { scheme, host, port: Some(8443), cert, client_alpn: BOTH, server_alpn: BOTH, fault: "none", h2_request: false, tcp: true });
+                v.push(TlsCase { scheme, host, port: Some(8443), cert, client_alpn: BOTH, server_alpn: BOTH, fault: "none", h2_request: false, tcp: true, from_parts: false, preset_host: None });
             }
         }
     }
